@@ -27,6 +27,8 @@ func init() {
 		"bs.grid":        exGrid,
 		"bs.fromfift":    exFromFift,
 		"bs.cell":        exCell,
+		"bs.cellseq":     exCellSeq,
+		"bs.cellspec":    exCellSeq,
 		"bs.minbits":     func(a []string) string { return strconv.Itoa(boc.VerifMinBitsRequired(u64c(a[0]))) },
 		"go.wr":          goWriteRead,
 		"go.overflow":    goOverflow,
@@ -386,6 +388,112 @@ func exCell(a []string) string {
 		r := c.RawBitString()
 		return fmt.Sprintf("%s %d %d", showState(&r), c.RefsSize(), c.RefsAvailableForRead())
 	})
+}
+
+// exCellSeq: a heap of cells addressed by index; steps "<target>.<item>". References are pointers: the id of a cell
+// returned by NextRef / stored in a slot is found by pointer identity.
+func exCellSeq(a []string) string {
+	heap := []*boc.Cell{boc.NewCell()}
+	idOf := func(c *boc.Cell) int {
+		for i, x := range heap {
+			if x == c {
+				return i
+			}
+		}
+		return -1
+	}
+	var out []string
+	panicked := false
+	if a[0] != "-" {
+		for _, tok := range strings.Split(a[0], ";") {
+			dot := strings.IndexByte(tok, '.')
+			if dot < 0 {
+				return "bad-op"
+			}
+			t, it := atoi(tok[:dot]), tok[dot+1:]
+			r := func() (res string) {
+				defer func() {
+					if e := recover(); e != nil {
+						res = "panic"
+					}
+				}()
+				if it == "nc" {
+					heap = append(heap, boc.NewCell())
+					return fmt.Sprintf("ok:%d", len(heap)-1)
+				}
+				if t < 0 || t >= len(heap) {
+					return "err"
+				}
+				c := heap[t]
+				f := strings.Split(it, ":")
+				switch f[0] {
+				case "ar":
+					ch := atoi(f[1])
+					if ch < 0 || ch >= len(heap) {
+						return "err"
+					}
+					return res0(c.AddRef(heap[ch]))
+				case "nf":
+					n, err := c.NewRef()
+					heap = append(heap, n)
+					if err != nil {
+						return "err"
+					}
+					return fmt.Sprintf("ok:%d", len(heap)-1)
+				case "nr":
+					r, err := c.NextRef()
+					if err != nil {
+						return "err"
+					}
+					return fmt.Sprintf("ok:%d", idOf(r))
+				case "rC":
+					c.ResetCounters()
+					return "ok"
+				case "cr":
+					c2 := c.CopyRemaining()
+					heap = append(heap, c2)
+					return fmt.Sprintf("ok:%d", len(heap)-1)
+				case "rz":
+					return fmt.Sprintf("ok:%d", c.RefsSize())
+				case "ra":
+					return fmt.Sprintf("ok:%d", c.RefsAvailableForRead())
+				case "ba":
+					return fmt.Sprintf("ok:%d", c.BitsAvailableForRead())
+				case "bw":
+					return fmt.Sprintf("ok:%d", c.BitsAvailableForWrite())
+				}
+				return applyItem(c, it)
+			}()
+			if r == "bad" {
+				return "bad-op"
+			}
+			out = append(out, r)
+			if r == "panic" {
+				panicked = true
+				break
+			}
+		}
+	}
+	if panicked {
+		return strings.Join(append(out, "|", "panic"), " ")
+	}
+	var cells []string
+	for _, c := range heap {
+		raw := c.RawBitString()
+		var ids []string
+		for _, r := range c.Refs() {
+			ids = append(ids, strconv.Itoa(idOf(r)))
+		}
+		cells = append(cells, fmt.Sprintf("%s [%s] %d", showState(&raw), strings.Join(ids, ","), c.RefsAvailableForRead()))
+	}
+	return strings.Join(append(out, "|", strings.Join(cells, " / ")), " ")
+}
+
+func res0(err error) string {
+	if err != nil {
+		return "err"
+	}
+	return "ok"
 }
 
 func exGrid(a []string) string {
@@ -1145,6 +1253,16 @@ func negItem(g *h.G) string {
 	}
 }
 
+// negItem2: a negative-argument item available through the Cell wrappers
+func negItem2(g *h.G) string {
+	for {
+		it := negItem(g)
+		if !strings.HasPrefix(it, "o") {
+			return it
+		}
+	}
+}
+
 func (q *seqGen) step() {
 	g := q.g
 	if g.Rng.Intn(30) == 0 {
@@ -1518,6 +1636,96 @@ func genC06(g *h.G) {
 		g.Emit("bs.cell", init, line)
 		if q.unaligned && (q.errs || q.wd) {
 			g.NonTrivial("cell " + init + " " + line)
+		}
+	}
+	// cell-level sequences over a heap: sharing, self references, NextRef resetting children, CopyRemaining
+	for i := 0; i < g.Scale(1500, 30000); i++ {
+		n := 1
+		var st []string
+		bitItem := func() string {
+			switch g.Rng.Intn(16) {
+			case 0, 1, 2:
+				w := pickWidth(g)
+				return fmt.Sprintf("wu:%d:%d", valOfWidth(g, w), w)
+			case 3:
+				w := pickWidth(g)
+				return fmt.Sprintf("wi:%d:%d", intOfWidth(g, w), w)
+			case 4:
+				return "ws:" + randBits(g, g.Rng.Intn(40))
+			case 5:
+				return "wy:" + h.Hex(g.Bytes(g.Rng.Intn(5)))
+			case 6, 7:
+				return fmt.Sprintf("ru:%d", pickWidth(g))
+			case 8:
+				w := pickWidth(g)
+				return fmt.Sprintf("ri:%d", w)
+			case 9:
+				return fmt.Sprintf("sk:%d", g.Rng.Intn(12))
+			case 10:
+				return fmt.Sprintf("rs:%d", g.Rng.Intn(30))
+			case 11:
+				return "rr"
+			case 12:
+				return "rb"
+			case 13:
+				return fmt.Sprintf("wn:%d", g.Rng.Intn(8))
+			case 14:
+				return negItem2(g)
+			default:
+				return fmt.Sprintf("ry:%d", g.Rng.Intn(4))
+			}
+		}
+		steps := 10 + g.Rng.Intn(40)
+		alias := false
+		for k := 0; k < steps; k++ {
+			t := g.Rng.Intn(n)
+			if g.Rng.Intn(40) == 0 {
+				t = n + g.Rng.Intn(2) // no such cell
+			}
+			var it string
+			switch r := g.Rng.Intn(20); {
+			case r < 7:
+				it = bitItem()
+			case r < 10:
+				ch := g.Rng.Intn(n)
+				if g.Rng.Intn(25) == 0 {
+					ch = n
+				}
+				if ch == t {
+					alias = true
+				}
+				it = fmt.Sprintf("ar:%d", ch)
+			case r < 11:
+				it = "nf"
+				if t < n {
+					n++
+				}
+			case r < 14:
+				it = "nr"
+			case r < 15:
+				it = "rC"
+			case r < 17:
+				it = "cr"
+				if t < n {
+					n++
+				}
+			case r < 18:
+				it = pickS(g, "rz", "ra", "ba", "bw")
+			default:
+				it = "nc"
+				n++
+			}
+			st = append(st, fmt.Sprintf("%d.%s", t, it))
+		}
+		line := strings.Join(st, ";")
+		g.Emit("bs.cellseq", line)
+		g.Emit("bs.cellspec", line)
+		g.Count("cellseq")
+		if alias {
+			g.Count("cellseq_with_self_reference")
+		}
+		if strings.Contains(line, "nr") && strings.Contains(line, "cr") {
+			g.NonTrivial("cellseq " + line)
 		}
 	}
 	// (c) Fift hex: every length 0..1023 x 3 contents; (d) malformed text ---------------------------------------------
